@@ -78,6 +78,15 @@ def run(P, rep, tier):
     from . import c04
 
     rep.attempt(c04.r3_subclass, P, rep, ctx)
+    # the skeleton lists what the overlay view shows: no raw container access in skeleton / manifest code (C01.R12)
+    from . import c01
+
+    rep.attempt(c01.r12_raw_containers_stay_inside, P, rep, ctx)
+    # "accepted as the next patch of the real record": the patch written on the stub must carry the file name the real record
+    # gives its next patch (name language of C03.R3)
+    from . import c03 as _c03
+
+    rep.attempt(_c03.r3_name_language, P, rep, ctx)
     rep.floor("C10.R1", 6)
     rep.floor("C10.R2", 5)
     rep.floor("C10.R3", 3)
